@@ -10,6 +10,9 @@ import itertools
 from fractions import Fraction
 
 import numpy as _np
+import time
+
+DEADLINE = [None]   # wall-clock deadline of the running task's symbolic execution (set by the harness)
 import z3
 
 from . import extract
@@ -831,7 +834,16 @@ class Exec:
         if isinstance(container, (list, tuple)):
             r = False
             for x in container:
-                if isinstance(x, (str, type(None))) or isinstance(item, (str, type(None))):
+                if hasattr(x, "compare") or hasattr(item, "compare") or hasattr(x, "is_none") or hasattr(item, "is_none"):
+                    # engine objects (solver status, ...) decide equality themselves: Python's == on them means nothing here
+                    if x is None or item is None:
+                        other = item if x is None else x
+                        e = other.is_none() if hasattr(other, "is_none") else False
+                    else:
+                        e = self.compare(ast.Eq(), x, item, None, st)
+                elif isinstance(x, (str, type(None))) or isinstance(item, (str, type(None))):
+                    if isinstance(x, (SObj, LibRef)) or isinstance(item, (SObj, LibRef)):
+                        raise Unsupported("'in' with %r / %r" % (x, item))
                     e = x == item
                 else:
                     e = V.eq(x, item)
@@ -1019,6 +1031,9 @@ class Exec:
         return out
 
     def concretize_mask(self, st, mask):
+        nsym = sum(1 for v in mask.a.reshape(-1) if not isinstance(v, bool))
+        if nsym > 8:
+            raise Unsupported("a boolean mask with %d symbolic entries would have to be enumerated (more than 2^8 paths)" % nsym)
         st.tmp.append(mask)
         paths = [st]
         n = mask.size
@@ -1195,6 +1210,56 @@ class Exec:
                 out.append((s2, val))
         return out
 
+    def ev_next(self, node, st):
+        """next(<generator>[, default]): the first item, as the search loop it abbreviates:
+               r = <default>; found = False
+               for x in IT:
+                   if C: r = E; found = True; break
+           (without a default, exhaustion raises StopIteration: an obligation that an item exists)."""
+        comp = node.args[0]
+        gen = comp.generators[0]
+        self._desugar_id[0] += 1
+        k = self._desugar_id[0]
+        acc, fnd, itn, dfl = "__next_val_%d" % k, "__next_found_%d" % k, "__next_it_%d" % k, "__next_default_%d" % k
+        ld = lambda n: ast.Name(id=n, ctx=ast.Load())
+        stv = lambda n: ast.Name(id=n, ctx=ast.Store())
+        out = []
+        for s, itv in self.ev(gen.iter, st):
+            if isinstance(itv, Abort):
+                out.append((s, itv))
+                continue
+            defaults = [(s, None)]
+            if len(node.args) == 2:
+                defaults = self.ev(node.args[1], s)
+            for s1, dv in defaults:
+                if isinstance(dv, Abort):
+                    out.append((s1, dv))
+                    continue
+                inner = [ast.Assign(targets=[stv(acc)], value=comp.elt), ast.Assign(targets=[stv(fnd)], value=ast.Constant(value=True)), ast.Break()]
+                body = inner
+                for cnd in reversed(gen.ifs):
+                    body = [ast.If(test=cnd, body=body, orelse=[])]
+                prog = [ast.Assign(targets=[stv(acc)], value=ld(dfl)), ast.Assign(targets=[stv(fnd)], value=ast.Constant(value=False)),
+                        ast.For(target=gen.target, iter=ld(itn), body=body, orelse=[])]
+                for n_ in prog:
+                    ast.copy_location(n_, node)
+                    ast.fix_missing_locations(n_)
+                fr = Frame(s1.frame.module, s1.frame.func, s1.frame.cls, parent=s1.frame)
+                fr.locals[itn] = itv
+                fr.locals[dfl] = dv
+                s1.frames.append(fr)
+                for s2, o in self.exec_block(prog, s1):
+                    val, found = s2.frame.locals.get(acc), s2.frame.locals.get(fnd)
+                    s2.frames.pop()
+                    if o is not NORMAL:
+                        out.append((s2, Abort(o) if not isinstance(o, Abort) else o))
+                        continue
+                    if len(node.args) == 1:
+                        self.ctx.cur_state = s2
+                        self.ctx.obligation("no-raise:StopIteration(next of an exhausted generator)", V.Bz(found) if not isinstance(found, bool) else found)
+                    out.append((s2, val))
+        return out
+
     def ev_any_all(self, node, st):
         """any(<comprehension>) / all(<comprehension>): lazily, so that a symbolic collection is handled by a loop summary."""
         comp = node.args[0]
@@ -1303,6 +1368,9 @@ class Exec:
         # logging.* calls are dropped (DESIGN 2.1)
         if self.is_logging_call(node):
             return [(st, None)]
+        if (isinstance(node.func, ast.Name) and node.func.id == "next" and len(node.args) in (1, 2) and not node.keywords
+                and isinstance(node.args[0], ast.GeneratorExp) and len(node.args[0].generators) == 1 and not self.name_is_bound("next", st)):
+            return self.ev_next(node, st)
         if (isinstance(node.func, ast.Name) and node.func.id in ("any", "all") and len(node.args) == 1 and not node.keywords
                 and isinstance(node.args[0], (ast.GeneratorExp, ast.ListComp)) and len(node.args[0].generators) == 1
                 and not self.name_is_bound(node.func.id, st)):
@@ -1567,6 +1635,9 @@ class Exec:
 
     def exec_stmt(self, stmt, st):
         self.at(stmt, st)
+        dl = DEADLINE[0]
+        if dl is not None and time.time() > dl:
+            raise Unsupported("symbolic execution exceeded the task's time budget (path explosion) at %s" % self.where(stmt, st))
         m = getattr(self, "exec_" + type(stmt).__name__, None)
         if m is None:
             raise Unsupported("statement %s at %s" % (type(stmt).__name__, self.where(stmt, st)))
